@@ -4,7 +4,7 @@ SPEC = dict(
     level="fault_enumeration",
     technique="enumerated file faults (main x notebook x backup) x retry configurations through the real LoadDatabaseWithFallback, attempts and waits counted exactly by an observer hook inside the retry loop",
     level_text="Every combination of {valid, empty list, 0 bytes, missing, permission-denied, directory, dangling symlink, symlink loop, unsearchable parent "
-               "directory, malformed YAML, wrong shape, binary garbage} on the main and the notebook file and {missing, valid, malformed} on the backup is created on disk (12x12x3 = 432 "
+               "directory, malformed YAML, wrong shape, binary garbage} on the main and the notebook file and {missing, valid, malformed, empty list, 0 bytes} on the backup is created on disk (12x12x5 = 720 "
                "combinations, each under 2 (quick) / 6 (thorough) of 180 retry configurations), plus transient faults repaired when the observer "
                "reports attempt j, plus steep back-off configurations whose product overflows int64 (every wait must still lie in [previous, maximum]), plus the default configuration. The returned (database, error), its searchability, which database it is, the "
                "number of load attempts and every requested wait are checked against the statement. Permission faults are real: the shard re-executes "
